@@ -106,6 +106,29 @@ def typestate_at(fn, call_bb, recv_local):
     return IN.get(call_bb, MAY), seen
 
 
+def transmute_forwarders(G):
+    """{path of a local `unsafe fn`: index of the StrainsVec parameter it passes straight into transmute_into_vec (or another forwarder)}"""
+    cache = G.__dict__.setdefault('_c11_forwarders', None)
+    if cache is not None:
+        return cache
+    out = {}
+    for _ in range(2):
+        for fn in G.fns:
+            if not fn.is_unsafe or fn.path in out or fn.self_adt == SV:
+                continue
+            for bi, t in fn.calls():
+                p = callee_path(t)
+                if p.endswith('StrainsVec::transmute_into_vec') or p in out:
+                    k0 = out.get(p, 1) - 1
+                    a0 = t['args'][k0] if k0 < len(t['args']) else None
+                    if a0 and a0.get('k') in ('copy', 'move') and 'proj' not in a0['p']:
+                        for k in range(1, fn.argc + 1):
+                            if a0['p']['l'] in strainsvec_aliases(fn, k):
+                                out[fn.path] = k
+    G.__dict__['_c11_forwarders'] = out
+    return out
+
+
 # ---- R4 ---------------------------------------------------------------------------------------------
 
 def erase_regions(s):
@@ -131,9 +154,17 @@ def run(ctx):
             where = fn.where(o['line'])
             kind, detail = o['kind'], o['detail']
             key_base = '%s%s' % (tag, fn.path)
-            if kind == 'unsafe-call' and detail.endswith('StrainsVec::transmute_into_vec'):
+            forwarders = transmute_forwarders(G)
+            if kind == 'unsafe-call' and (detail.endswith('StrainsVec::transmute_into_vec') or detail in forwarders):
                 t = o['term']
-                a0 = t['args'][0]
+                k0 = forwarders.get(detail, 1) - 1
+                a0 = t['args'][k0]
+                # inside an `unsafe fn` that hands its own parameter on, the obligation is its callers' (judged at their call sites)
+                if fn.path in forwarders and a0.get('k') in ('copy', 'move') and 'proj' not in a0['p'] and \
+                        a0['p']['l'] in strainsvec_aliases(fn, forwarders[fn.path]):
+                    ctx.ok('C11-R1', key_base + ':transmute_into_vec', 'unsafe fn %s forwards its parameter; the non-zero state is owed by every caller' % fn.path.split('::')[-1], where)
+                    handled += 1
+                    continue
                 state, seen = typestate_at(fn, o['bb'], a0['p']['l'])
                 ctx.require(state == 'non-zero', 'C11-R1', key_base + ':transmute_into_vec',
                             'receiver is in state non-zero on every path (calls on it: %s)' % ', '.join(seen), where,
@@ -338,7 +369,7 @@ def r4_owner(ctx, F, cg, ext_fn, where):
         core = prov.strip(v)
         if core[0] in ('const', 'param'):
             continue
-        if core[0] == 'call' and any(n == core for n in ref_tree_nodes):
+        if core[0] in ('call', 'field', 'variant') and any(n == core for n in ref_tree_nodes):      # the owner itself, or a part of a returned struct
             owners.append(f)
     ctx.require(bool(owners), 'C11-R4', key + ':same-struct', '%s { %s: extend_lifetime(..), %s: <owner> } — referrer and owner are stored '
                 'in the same struct value' % (S.split('::')[-1], ref_field, ', '.join(owners)), cfn.where(),
@@ -394,9 +425,18 @@ def heap_stable(F, adt):
 
 def r5_point_split(ctx, F, cg, fn, o, where):
     BS = 'model::beatmap::decode::BeatmapState'
+    key = fn.path
+    # phases of point_split that were split off into private helpers (fill the buffer, hand back pointer and length) are read through
+    import inline
+    raw_fn = fn
+    fi = inline.inlined(F, fn)
+    if fi is not fn:
+        bbs = [bi for bi, t in fi.calls() if t['func'].get('name') == 'from_raw_parts']
+        if len(bbs) == 1:
+            fn = fi
+            o = dict(o, bb=bbs[0])
     P = prov.prov_of(fn)
     args = P.call_args(o['bb'])
-    key = fn.path
     ptr = prov.strip(args[0], names=prov.TRANSPARENT_NAMES | {'cast', 'as_ptr'})
     ln = prov.strip(args[1], names=prov.TRANSPARENT_NAMES | {'len'})
     p1 = as_param_path(ptr)
@@ -430,13 +470,16 @@ def r5_point_split(ctx, F, cg, fn, o, where):
                 bad='a path from the borrowed-pointer slice to the return of point_split skips point_split.clear(): stale *const str '
                     'entries would be reinterpreted as &str on the next line')
     # the buffer is touched by nobody else
+    def only_from_point_split(g, depth=0):
+        sites = F.callers().get(g.path, [])
+        return bool(sites) and depth < 3 and all(c.path == raw_fn.path or only_from_point_split(c, depth + 1) for c, _, _ in sites)
     others = [a for a in fieldidx.accesses(F, BS, 'point_split')
-              if a['fn'].path != fn.path and a['kind'] not in ('agg-init', 'drop')]
+              if a['fn'].path != fn.path and a['kind'] not in ('agg-init', 'drop') and not only_from_point_split(a['fn'])]
     ctx.require(not others, 'C11-R5', key + ':confined', 'BeatmapState.point_split is accessed only inside point_split() (plus construction and drop)', where,
                 bad='BeatmapState.point_split is also accessed by %s' % sorted({a['fn'].path for a in others}))
     # no re-entrancy: point_split is not reachable from the closures handed to it
     closures = set()
-    for cfn, cbb, ct in F.callers().get(fn.path, []):
+    for cfn, cbb, ct in F.callers().get(raw_fn.path, []):
         for a in ct['args']:
             if a['k'] in ('copy', 'move') and 'proj' not in a['p']:
                 ty = cfn.locals[a['p']['l']]
